@@ -7,6 +7,7 @@ ASSUMPTIONS = [
     'virtual clock by rebinding time.time (100us tick per read)',
     'renewal is requested the way scheduler_test.test_renew does (app.renew = True before a cycle), one per cycle, on instances that stay placed; the retry flag the cycle sets is cleared by the harness (production never sets renew)',
     'recording wrappers on Cell._find_placements, Bucket.put, Server.put/restore/remove/renew, PlacementFeasibilityTracker (observe only)',
+    'every 4th history runs at Master level: real Master/Loader on ZkBackend on the in-memory ZooKeeper fake, events produced with masterapi, server state and reboot time taken from the records the master publishes',
     'generated inputs stay inside etc/schema/*.json (priority/rank 0..100, non-negative demand, adjustment <= rank)',
 ]
 
